@@ -350,6 +350,8 @@ def check(ctx, rep):
     rep.floor('FWD', 'forwarding sites in fragmentation.py', n, 40)
     add_ret(rep, param_reaches_returns(an, program, 'peptacular.mass_calc:mass',
                                        ['loss', 'isotope', 'charge', 'ion_type']), 'C04d')
+    from . import C05
+    C05.build_fragments_bindings(ctx, rep, 'C04d')
     series_routing(ctx, rep, 'C04e')
     # R-STRIP applies to whichever function sums mass() over split() pieces
     sites = [f for f in program.all_functions() if f.module.name == FR and
